@@ -543,10 +543,28 @@ def mon_c04(scripts, stats):
 
 # ---------------- C05 ----------------
 def mon_c05(scripts, stats):
+    issued = {}   # per script: outbound nonce -> (amount, step) of the deposit that was given it
+    burnt = {}    # per script: total burnt through successful deposits
     for sc, n, inp, cmd, ty, a, pre, obs in walk(scripts):
         if cmd != 'TX':
             continue
         ok = outcome(obs) == 'ok'
+        if ty in ('DepositForBurn', 'DepositForBurnWithCaller') and ok:
+            # history level: the supply destroyed equals the sum of burn-message amounts over DISTINCT outbound nonces -
+            # so no two deposits of a history may be given the same nonce (up to the 2^64 wrap of the counter)
+            for e in events(obs, 'MessageSent'):
+                m = msg_header(e['message'])
+                b = burn_body(m['body']) if m else None
+                if m is None or b is None:
+                    continue
+                seen = issued.setdefault(id(sc), {})
+                burnt[id(sc)] = burnt.get(id(sc), 0) + b['amount']
+                if m['nonce'] in seen and len(seen) < 2 ** 20:
+                    yield sc, n, 'C05: this deposit of %d was given outbound nonce %d, which the deposit at step %s (amount %d) already carries: %d burnt so far, %d stated over distinct nonces' % (
+                        b['amount'], m['nonce'], seen[m['nonce']][1], seen[m['nonce']][0], burnt[id(sc)], sum(v[0] for v in seen.values()))
+                else:
+                    seen[m['nonce']] = (b['amount'], n)
+                stats['mon_c05_nonces_tracked'] += 1
         s0, s1 = state_of(pre), state_of(obs.get('S', []))
         calls = dcalls(obs)
         sent = [msg_header(e['message']) for e in events(obs, 'MessageSent')]
